@@ -15,6 +15,10 @@ def classify_outcome(exc):
     if desc['type'] == 'ValueError' and 'max() iterable argument is empty' in msg or (
             desc['type'] == 'ValueError' and 'arg is an empty sequence' in msg):
         return 'main-body-single-interval', desc
+    if desc['type'] == 'AssertionError' and desc['site'] and desc['site'][0] == 'get_series_time_offsets':
+        # no interval crosses any grid level: there is no curve to assemble
+        # (len(head_mappings) == 1 fails on an empty component list)
+        return 'refusal:no-level-crossed', desc
     if desc['type'] == 'ValueError' and 'not evenly divisible' in msg:
         return 'refusal:reference-off-grid', desc
     if desc['type'] == 'KeyError' and desc['site'] and desc['site'][0] in ('compute_offsets', 'compute_rise_offsets'):
